@@ -85,7 +85,7 @@ type retryCase struct {
 	failures     int           // -1 = forever
 	slowSuccess  time.Duration // the successful attempt takes this long to answer (it may straddle the deadline)
 	slowFailure  time.Duration // every failing attempt takes this long to answer
-	errKind      string        // how the wrapped getter's failures are typed: "" plain, "net-timeout", "url-timeout", "deadline", "eof"
+	errKind      string        // ("nil-success": the successful response carries NO header map, whatever the failing attempts carried) how the wrapped getter's failures are typed: "" plain, "net-timeout", "url-timeout", "deadline", "eof"
 	retryAfter   string        // failing attempts come with a response header map carrying this Retry-After value ("date" = an HTTP date 5 s ahead)
 }
 
@@ -122,6 +122,9 @@ func runRetry(c retryCase) retryResult {
 	}
 	if c.slowSuccess > 0 && c.failures >= 0 {
 		f.latency = map[int]time.Duration{c.failures: c.slowSuccess}
+	}
+	if c.errKind == "nil-success" {
+		f.hdr = nil
 	}
 	g := &trust.RetryHTTPSGetter{Timeout: c.timeout, MaxRetryDelay: c.cap, Getter: f}
 	// lateness calibration while the case runs
@@ -219,6 +222,12 @@ func c20(x *mon.Ctx) {
 		retryCase{timeout: time.Second, cap: 20 * time.Millisecond, failures: -1, retryAfter: "3"},
 		retryCase{timeout: time.Second, cap: 100 * time.Millisecond, failures: 2, retryAfter: "date"},
 		retryCase{timeout: 300 * time.Millisecond, cap: time.Millisecond, failures: 5, retryAfter: "1"})
+	// failing attempts that carry headers, followed by a success that carries none (and one that carries its own)
+	cases = append(cases,
+		retryCase{timeout: time.Second, cap: 10 * time.Millisecond, failures: 2, retryAfter: "0", errKind: "nil-success"},
+		retryCase{timeout: time.Second, cap: 10 * time.Millisecond, failures: 1, retryAfter: "1", errKind: "nil-success"},
+		retryCase{timeout: time.Second, cap: 10 * time.Millisecond, failures: 0, errKind: "nil-success"},
+		retryCase{timeout: time.Second, cap: 10 * time.Millisecond, failures: 3, errKind: "nil-success"})
 	// failures of every usual type (a silent network produces timeout-typed errors only): an error stays an error
 	for _, ek := range []string{"net-timeout", "url-timeout", "deadline", "eof"} {
 		cases = append(cases,
@@ -313,6 +322,9 @@ func c20(x *mon.Ctx) {
 		succeeded := r.err == nil
 		if succeeded {
 			want := retryHeaders()
+			if c.errKind == "nil-success" {
+				want = nil
+			}
 			if !reflect.DeepEqual(r.hdr, want) || string(r.body) != "the body of the first successful response" {
 				probs = append(probs, "the returned response differs from the wrapped getter's first successful response")
 			}
